@@ -53,6 +53,8 @@ Record state := mkState {
   wwidth : nat -> Z;
   wsource : nat -> option nat;
   wsinks : nat -> list nat;
+  wbidir : nat -> bool;
+  wsources : nat -> list nat;
   pkind : nat -> portkind;
   pparent : nat -> nat;
   pname : nat -> name;
@@ -60,55 +62,60 @@ Record state := mkState {
 }.
 
 Definition set_nobj (s : state) (v : nat) : state :=
-  mkState v (nwire s) (nport s) (oparent s) (oname s) (oprim s) (ochildren s) (owires s) (oin s) (oout s) (oinout s) (wparent s) (wname s) (wwidth s) (wsource s) (wsinks s) (pkind s) (pparent s) (pname s) (pwire s).
+  mkState v (nwire s) (nport s) (oparent s) (oname s) (oprim s) (ochildren s) (owires s) (oin s) (oout s) (oinout s) (wparent s) (wname s) (wwidth s) (wsource s) (wsinks s) (wbidir s) (wsources s) (pkind s) (pparent s) (pname s) (pwire s).
 Definition set_nwire (s : state) (v : nat) : state :=
-  mkState (nobj s) v (nport s) (oparent s) (oname s) (oprim s) (ochildren s) (owires s) (oin s) (oout s) (oinout s) (wparent s) (wname s) (wwidth s) (wsource s) (wsinks s) (pkind s) (pparent s) (pname s) (pwire s).
+  mkState (nobj s) v (nport s) (oparent s) (oname s) (oprim s) (ochildren s) (owires s) (oin s) (oout s) (oinout s) (wparent s) (wname s) (wwidth s) (wsource s) (wsinks s) (wbidir s) (wsources s) (pkind s) (pparent s) (pname s) (pwire s).
 Definition set_nport (s : state) (v : nat) : state :=
-  mkState (nobj s) (nwire s) v (oparent s) (oname s) (oprim s) (ochildren s) (owires s) (oin s) (oout s) (oinout s) (wparent s) (wname s) (wwidth s) (wsource s) (wsinks s) (pkind s) (pparent s) (pname s) (pwire s).
+  mkState (nobj s) (nwire s) v (oparent s) (oname s) (oprim s) (ochildren s) (owires s) (oin s) (oout s) (oinout s) (wparent s) (wname s) (wwidth s) (wsource s) (wsinks s) (wbidir s) (wsources s) (pkind s) (pparent s) (pname s) (pwire s).
 Definition set_oparent (s : state) (v : nat -> option nat) : state :=
-  mkState (nobj s) (nwire s) (nport s) v (oname s) (oprim s) (ochildren s) (owires s) (oin s) (oout s) (oinout s) (wparent s) (wname s) (wwidth s) (wsource s) (wsinks s) (pkind s) (pparent s) (pname s) (pwire s).
+  mkState (nobj s) (nwire s) (nport s) v (oname s) (oprim s) (ochildren s) (owires s) (oin s) (oout s) (oinout s) (wparent s) (wname s) (wwidth s) (wsource s) (wsinks s) (wbidir s) (wsources s) (pkind s) (pparent s) (pname s) (pwire s).
 Definition set_oname (s : state) (v : nat -> name) : state :=
-  mkState (nobj s) (nwire s) (nport s) (oparent s) v (oprim s) (ochildren s) (owires s) (oin s) (oout s) (oinout s) (wparent s) (wname s) (wwidth s) (wsource s) (wsinks s) (pkind s) (pparent s) (pname s) (pwire s).
+  mkState (nobj s) (nwire s) (nport s) (oparent s) v (oprim s) (ochildren s) (owires s) (oin s) (oout s) (oinout s) (wparent s) (wname s) (wwidth s) (wsource s) (wsinks s) (wbidir s) (wsources s) (pkind s) (pparent s) (pname s) (pwire s).
 Definition set_oprim (s : state) (v : nat -> bool) : state :=
-  mkState (nobj s) (nwire s) (nport s) (oparent s) (oname s) v (ochildren s) (owires s) (oin s) (oout s) (oinout s) (wparent s) (wname s) (wwidth s) (wsource s) (wsinks s) (pkind s) (pparent s) (pname s) (pwire s).
+  mkState (nobj s) (nwire s) (nport s) (oparent s) (oname s) v (ochildren s) (owires s) (oin s) (oout s) (oinout s) (wparent s) (wname s) (wwidth s) (wsource s) (wsinks s) (wbidir s) (wsources s) (pkind s) (pparent s) (pname s) (pwire s).
 Definition set_ochildren (s : state) (v : nat -> tbl) : state :=
-  mkState (nobj s) (nwire s) (nport s) (oparent s) (oname s) (oprim s) v (owires s) (oin s) (oout s) (oinout s) (wparent s) (wname s) (wwidth s) (wsource s) (wsinks s) (pkind s) (pparent s) (pname s) (pwire s).
+  mkState (nobj s) (nwire s) (nport s) (oparent s) (oname s) (oprim s) v (owires s) (oin s) (oout s) (oinout s) (wparent s) (wname s) (wwidth s) (wsource s) (wsinks s) (wbidir s) (wsources s) (pkind s) (pparent s) (pname s) (pwire s).
 Definition set_owires (s : state) (v : nat -> tbl) : state :=
-  mkState (nobj s) (nwire s) (nport s) (oparent s) (oname s) (oprim s) (ochildren s) v (oin s) (oout s) (oinout s) (wparent s) (wname s) (wwidth s) (wsource s) (wsinks s) (pkind s) (pparent s) (pname s) (pwire s).
+  mkState (nobj s) (nwire s) (nport s) (oparent s) (oname s) (oprim s) (ochildren s) v (oin s) (oout s) (oinout s) (wparent s) (wname s) (wwidth s) (wsource s) (wsinks s) (wbidir s) (wsources s) (pkind s) (pparent s) (pname s) (pwire s).
 Definition set_oin (s : state) (v : nat -> list nat) : state :=
-  mkState (nobj s) (nwire s) (nport s) (oparent s) (oname s) (oprim s) (ochildren s) (owires s) v (oout s) (oinout s) (wparent s) (wname s) (wwidth s) (wsource s) (wsinks s) (pkind s) (pparent s) (pname s) (pwire s).
+  mkState (nobj s) (nwire s) (nport s) (oparent s) (oname s) (oprim s) (ochildren s) (owires s) v (oout s) (oinout s) (wparent s) (wname s) (wwidth s) (wsource s) (wsinks s) (wbidir s) (wsources s) (pkind s) (pparent s) (pname s) (pwire s).
 Definition set_oout (s : state) (v : nat -> list nat) : state :=
-  mkState (nobj s) (nwire s) (nport s) (oparent s) (oname s) (oprim s) (ochildren s) (owires s) (oin s) v (oinout s) (wparent s) (wname s) (wwidth s) (wsource s) (wsinks s) (pkind s) (pparent s) (pname s) (pwire s).
+  mkState (nobj s) (nwire s) (nport s) (oparent s) (oname s) (oprim s) (ochildren s) (owires s) (oin s) v (oinout s) (wparent s) (wname s) (wwidth s) (wsource s) (wsinks s) (wbidir s) (wsources s) (pkind s) (pparent s) (pname s) (pwire s).
 Definition set_oinout (s : state) (v : nat -> list nat) : state :=
-  mkState (nobj s) (nwire s) (nport s) (oparent s) (oname s) (oprim s) (ochildren s) (owires s) (oin s) (oout s) v (wparent s) (wname s) (wwidth s) (wsource s) (wsinks s) (pkind s) (pparent s) (pname s) (pwire s).
+  mkState (nobj s) (nwire s) (nport s) (oparent s) (oname s) (oprim s) (ochildren s) (owires s) (oin s) (oout s) v (wparent s) (wname s) (wwidth s) (wsource s) (wsinks s) (wbidir s) (wsources s) (pkind s) (pparent s) (pname s) (pwire s).
 Definition set_wparent (s : state) (v : nat -> nat) : state :=
-  mkState (nobj s) (nwire s) (nport s) (oparent s) (oname s) (oprim s) (ochildren s) (owires s) (oin s) (oout s) (oinout s) v (wname s) (wwidth s) (wsource s) (wsinks s) (pkind s) (pparent s) (pname s) (pwire s).
+  mkState (nobj s) (nwire s) (nport s) (oparent s) (oname s) (oprim s) (ochildren s) (owires s) (oin s) (oout s) (oinout s) v (wname s) (wwidth s) (wsource s) (wsinks s) (wbidir s) (wsources s) (pkind s) (pparent s) (pname s) (pwire s).
 Definition set_wname (s : state) (v : nat -> name) : state :=
-  mkState (nobj s) (nwire s) (nport s) (oparent s) (oname s) (oprim s) (ochildren s) (owires s) (oin s) (oout s) (oinout s) (wparent s) v (wwidth s) (wsource s) (wsinks s) (pkind s) (pparent s) (pname s) (pwire s).
+  mkState (nobj s) (nwire s) (nport s) (oparent s) (oname s) (oprim s) (ochildren s) (owires s) (oin s) (oout s) (oinout s) (wparent s) v (wwidth s) (wsource s) (wsinks s) (wbidir s) (wsources s) (pkind s) (pparent s) (pname s) (pwire s).
 Definition set_wwidth (s : state) (v : nat -> Z) : state :=
-  mkState (nobj s) (nwire s) (nport s) (oparent s) (oname s) (oprim s) (ochildren s) (owires s) (oin s) (oout s) (oinout s) (wparent s) (wname s) v (wsource s) (wsinks s) (pkind s) (pparent s) (pname s) (pwire s).
+  mkState (nobj s) (nwire s) (nport s) (oparent s) (oname s) (oprim s) (ochildren s) (owires s) (oin s) (oout s) (oinout s) (wparent s) (wname s) v (wsource s) (wsinks s) (wbidir s) (wsources s) (pkind s) (pparent s) (pname s) (pwire s).
 Definition set_wsource (s : state) (v : nat -> option nat) : state :=
-  mkState (nobj s) (nwire s) (nport s) (oparent s) (oname s) (oprim s) (ochildren s) (owires s) (oin s) (oout s) (oinout s) (wparent s) (wname s) (wwidth s) v (wsinks s) (pkind s) (pparent s) (pname s) (pwire s).
+  mkState (nobj s) (nwire s) (nport s) (oparent s) (oname s) (oprim s) (ochildren s) (owires s) (oin s) (oout s) (oinout s) (wparent s) (wname s) (wwidth s) v (wsinks s) (wbidir s) (wsources s) (pkind s) (pparent s) (pname s) (pwire s).
 Definition set_wsinks (s : state) (v : nat -> list nat) : state :=
-  mkState (nobj s) (nwire s) (nport s) (oparent s) (oname s) (oprim s) (ochildren s) (owires s) (oin s) (oout s) (oinout s) (wparent s) (wname s) (wwidth s) (wsource s) v (pkind s) (pparent s) (pname s) (pwire s).
+  mkState (nobj s) (nwire s) (nport s) (oparent s) (oname s) (oprim s) (ochildren s) (owires s) (oin s) (oout s) (oinout s) (wparent s) (wname s) (wwidth s) (wsource s) v (wbidir s) (wsources s) (pkind s) (pparent s) (pname s) (pwire s).
+Definition set_wbidir (s : state) (v : nat -> bool) : state :=
+  mkState (nobj s) (nwire s) (nport s) (oparent s) (oname s) (oprim s) (ochildren s) (owires s) (oin s) (oout s) (oinout s) (wparent s) (wname s) (wwidth s) (wsource s) (wsinks s) v (wsources s) (pkind s) (pparent s) (pname s) (pwire s).
+Definition set_wsources (s : state) (v : nat -> list nat) : state :=
+  mkState (nobj s) (nwire s) (nport s) (oparent s) (oname s) (oprim s) (ochildren s) (owires s) (oin s) (oout s) (oinout s) (wparent s) (wname s) (wwidth s) (wsource s) (wsinks s) (wbidir s) v (pkind s) (pparent s) (pname s) (pwire s).
 Definition set_pkind (s : state) (v : nat -> portkind) : state :=
-  mkState (nobj s) (nwire s) (nport s) (oparent s) (oname s) (oprim s) (ochildren s) (owires s) (oin s) (oout s) (oinout s) (wparent s) (wname s) (wwidth s) (wsource s) (wsinks s) v (pparent s) (pname s) (pwire s).
+  mkState (nobj s) (nwire s) (nport s) (oparent s) (oname s) (oprim s) (ochildren s) (owires s) (oin s) (oout s) (oinout s) (wparent s) (wname s) (wwidth s) (wsource s) (wsinks s) (wbidir s) (wsources s) v (pparent s) (pname s) (pwire s).
 Definition set_pparent (s : state) (v : nat -> nat) : state :=
-  mkState (nobj s) (nwire s) (nport s) (oparent s) (oname s) (oprim s) (ochildren s) (owires s) (oin s) (oout s) (oinout s) (wparent s) (wname s) (wwidth s) (wsource s) (wsinks s) (pkind s) v (pname s) (pwire s).
+  mkState (nobj s) (nwire s) (nport s) (oparent s) (oname s) (oprim s) (ochildren s) (owires s) (oin s) (oout s) (oinout s) (wparent s) (wname s) (wwidth s) (wsource s) (wsinks s) (wbidir s) (wsources s) (pkind s) v (pname s) (pwire s).
 Definition set_pname (s : state) (v : nat -> name) : state :=
-  mkState (nobj s) (nwire s) (nport s) (oparent s) (oname s) (oprim s) (ochildren s) (owires s) (oin s) (oout s) (oinout s) (wparent s) (wname s) (wwidth s) (wsource s) (wsinks s) (pkind s) (pparent s) v (pwire s).
+  mkState (nobj s) (nwire s) (nport s) (oparent s) (oname s) (oprim s) (ochildren s) (owires s) (oin s) (oout s) (oinout s) (wparent s) (wname s) (wwidth s) (wsource s) (wsinks s) (wbidir s) (wsources s) (pkind s) (pparent s) v (pwire s).
 Definition set_pwire (s : state) (v : nat -> nat) : state :=
-  mkState (nobj s) (nwire s) (nport s) (oparent s) (oname s) (oprim s) (ochildren s) (owires s) (oin s) (oout s) (oinout s) (wparent s) (wname s) (wwidth s) (wsource s) (wsinks s) (pkind s) (pparent s) (pname s) v.
+  mkState (nobj s) (nwire s) (nport s) (oparent s) (oname s) (oprim s) (ochildren s) (owires s) (oin s) (oout s) (oinout s) (wparent s) (wname s) (wwidth s) (wsource s) (wsinks s) (wbidir s) (wsources s) (pkind s) (pparent s) (pname s) v.
 
 Definition init : state :=
   mkState 0 0 0 (fun _ => None) (fun _ => 0%Z) (fun _ => false) (fun _ => []) (fun _ => [])
           (fun _ => []) (fun _ => []) (fun _ => [])
-          (fun _ => 0) (fun _ => 0%Z) (fun _ => 0%Z) (fun _ => None) (fun _ => [])
+          (fun _ => 0) (fun _ => 0%Z) (fun _ => 0%Z) (fun _ => None) (fun _ => []) (fun _ => false) (fun _ => [])
           (fun _ => PIn) (fun _ => 0) (fun _ => 0%Z) (fun _ => 0).
 
 Inductive op :=
 | NewLogic (parent : option nat) (n : name) (prim : bool)   (* SomeLogicSubclass(parent, name); prim = the class has propagate()/clock() *)
 | NewWire (parent : nat) (n : name) (width : Z)             (* Wire(parent, name, width) *)
+| NewBidir (parent : nat) (n : name) (width : Z)            (* BidirWire(parent, name, width) / parent.bidir_wire(name, width) *)
 | AddIn (o : nat) (n : name) (w : nat)                      (* o.addIn(name, w) *)
 | AddOut (o : nat) (n : name) (w : nat)                     (* o.addOut(name, w) *)
 | AddInOut (o : nat) (n : name) (w : nat)                   (* o.addInOut(name, w)  (w an ordinary Wire) *)
@@ -145,9 +152,10 @@ Definition new_logic (s : state) (par : option nat) (n : name) (prim : bool) : s
     else (alloc_obj (set_ochildren s (upd (ochildren s) p (tput (ochildren s p) n (nobj s)))) par n prim, Ok)
   end.
 
-(* Wire.__init__: attributes, then parent.appendWire(self) which raises on a duplicate name;
-   the half-built wire is unreachable afterwards *)
-Definition new_wire (s : state) (p : nat) (n : name) (width : Z) : state * outcome :=
+(* Wire.__init__ / BidirWire.__init__: attributes, then parent.appendWire(self) which raises on a duplicate name;
+   the half-built wire is unreachable afterwards.  Both classes live in the same _wires table.  A BidirWire has a
+   list `sources` and NO attribute `source`. *)
+Definition new_wire (s : state) (p : nat) (n : name) (width : Z) (bidir : bool) : state * outcome :=
   if negb (p <? nobj s) then (s, BadRef)
   else if tmem (owires s p) n then (s, Raise (CWire p n))
   else
@@ -158,6 +166,8 @@ Definition new_wire (s : state) (p : nat) (n : name) (width : Z) : state * outco
     let s := set_wwidth s (upd (wwidth s) id width) in
     let s := set_wsource s (upd (wsource s) id None) in
     let s := set_wsinks s (upd (wsinks s) id []) in
+    let s := set_wbidir s (upd (wbidir s) id bidir) in
+    let s := set_wsources s (upd (wsources s) id []) in
     (set_nwire s (S id), Ok).
 
 Definition drives (k : portkind) : bool := match k with PIn => false | _ => true end.
@@ -168,23 +178,28 @@ Definition is_some {A : Type} (x : option A) : bool := match x with Some _ => tr
    i.e. at port-creation time, and is a property of the class: having propagate()/clock(), not of having
    children); OutPort/InOutPort call wire.addSource -> setSource, which raises if a source exists; only
    after the constructor returns is the port appended to the parent's list. *)
-Definition add_port (s : state) (k : portkind) (o : nat) (n : name) (w : nat) : state * outcome :=
-  if negb ((o <? nobj s) && (w <? nwire s)) then (s, BadRef)
-  else if oprim s o && drives k && is_some (wsource s w) then (s, Raise (CDriver w))
-  else
+Definition add_port_ok (s : state) (k : portkind) (o : nat) (n : name) (w : nat) : state :=
     let q := nport s in
     let s := set_pkind s (upd (pkind s) q k) in
     let s := set_pparent s (upd (pparent s) q o) in
     let s := set_pname s (upd (pname s) q n) in
     let s := set_pwire s (upd (pwire s) q w) in
-    let s := set_wsource s (upd (wsource s) w (if oprim s o && drives k then Some q else wsource s w)) in
+    (* Wire.addSource -> setSource (single source, raises if there is one);  BidirWire.addSource appends and never raises *)
+    let s := set_wsource s (upd (wsource s) w (if oprim s o && drives k && negb (wbidir s w) then Some q else wsource s w)) in
+    let s := set_wsources s (upd (wsources s) w (if oprim s o && drives k && wbidir s w then wsources s w ++ [q] else wsources s w)) in
     let s := set_wsinks s (upd (wsinks s) w (if oprim s o && reads k then wsinks s w ++ [q] else wsinks s w)) in
     let s := set_oin s (upd (oin s) o (match k with PIn => oin s o ++ [q] | _ => oin s o end)) in
     let s := set_oout s (upd (oout s) o (match k with POut => oout s o ++ [q] | _ => oout s o end)) in
     let s := set_oinout s (upd (oinout s) o (match k with PInOut => oinout s o ++ [q] | _ => oinout s o end)) in
-    (set_nport s (S q), Ok).
+    set_nport s (S q).
 
-(* Wire.rename / reparent / reparentAndRename (after /repo commits a702577 + 0cca5f4):
+Definition add_port (s : state) (k : portkind) (o : nat) (n : name) (w : nat) : state * outcome :=
+  if negb ((o <? nobj s) && (w <? nwire s)) then (s, BadRef)
+  else if oprim s o && drives k && negb (wbidir s w) && is_some (wsource s w) then (s, Raise (CDriver w))
+  else (add_port_ok s k o n w, Ok).
+
+(* Wire.rename / reparent / reparentAndRename AND the textual copies BidirWire.rename / reparent / reparentAndRename
+   (same statements; the real-side executor calls whichever the wire's class defines) (after /repo commits a702577 + 0cca5f4):
      if <new name> in <new parent>._wires and <new parent>._wires[<new name>] is not self: raise
                                                       (tested FIRST: nothing has been changed; moving a wire onto
                                                        its OWN slot is not a collision)
@@ -215,7 +230,8 @@ Definition move (s : state) (w : nat) (np : option nat) (nn : option name) : sta
 Definition step (s : state) (o : op) : state * outcome :=
   match o with
   | NewLogic par n prim => new_logic s par n prim
-  | NewWire p n width => new_wire s p n width
+  | NewWire p n width => new_wire s p n width false
+  | NewBidir p n width => new_wire s p n width true
   | AddIn o n w => add_port s PIn o n w
   | AddOut o n w => add_port s POut o n w
   | AddInOut o n w => add_port s PInOut o n w
@@ -233,14 +249,16 @@ Inductive ires := IOk | IRaise | IFuel.
 
 Definition memb (x : nat) (l : list nat) : bool := existsb (Nat.eqb x) l.
 
-(* in-port loop: source == None -> raise; then checkPort(source): the source port must be in its
-   parent's inPorts, outPorts or inOutPorts (after /repo commit 0845e1f) *)
+(* in-port loop: wire.getSource(): on a BidirWire this is `return self.source`, an attribute that does not exist
+   (AttributeError: the check raises); source == None -> raise; then checkPort(source): the source port must be in
+   its parent's inPorts, outPorts or inOutPorts (after /repo commit 0845e1f) *)
 Definition in_bad (s : state) (q : nat) : bool :=
+  wbidir s (pwire s q) ||
   match wsource s (pwire s q) with
   | None => true
   | Some sp => negb (memb sp (oin s (pparent s sp)) || memb sp (oout s (pparent s sp)) || memb sp (oinout s (pparent s sp)))
   end.
-Definition out_bad (s : state) (q : nat) : bool := negb (is_some (wsource s (pwire s q))).
+Definition out_bad (s : state) (q : nat) : bool := wbidir s (pwire s q) || negb (is_some (wsource s (pwire s q))).
 Definition obj_bad (s : state) (o : nat) : bool :=
   existsb (in_bad s) (oin s o) || existsb (out_bad s) (oout s o).
 
@@ -273,7 +291,7 @@ Definition dump_obj (s : state) (i : nat) : list (list Z) :=
   [[zo (oparent s i); oname s i; zb (oprim s i)]; ztbl (ochildren s i); ztbl (owires s i);
    map zn (oin s i); map zn (oout s i); map zn (oinout s i)].
 Definition dump_wire (s : state) (i : nat) : list (list Z) :=
-  [[zn (wparent s i); wname s i; wwidth s i; zo (wsource s i)]; map zn (wsinks s i)].
+  [[zn (wparent s i); wname s i; wwidth s i; zo (wsource s i); zb (wbidir s i)]; map zn (wsinks s i); map zn (wsources s i)].
 Definition dump_port (s : state) (i : nat) : list (list Z) :=
   [[zk (pkind s i); zn (pparent s i); pname s i; zn (pwire s i)]].
 Definition dump (s : state) : list (list (list (list Z))) :=
